@@ -102,8 +102,14 @@ pub fn out_of_bound() {
 }
 
 pub fn set_hook(h: fn(u32), budget: u8) {
-    unsafe { HOOK = Some(h); BUDGET = budget; FIRED = 0; HOOK_SITES = 0xffff_ffff; }
+    unsafe { HOOK = Some(h); BUDGET = budget; FIRED = 0; HOOK_SITES = 0xffff_ffff; FIRE_AT = 0; SEEN = 0; }
 }
+/// placement by harness family instead of by the solver: the interferer runs at exactly the k-th visited candidate site
+/// (k >= 1; one harness per k).  Used where a solver-chosen placement makes the queue's contents symbolic and the
+/// query does not complete; the rest of the harness (clock, values) stays symbolic.
+pub fn set_fire_at(k: u32) { unsafe { FIRE_AT = k; SEEN = 0; } }
+static mut FIRE_AT: u32 = 0;
+static mut SEEN: u32 = 0;
 /// restrict the placements of the interferer to the given sites (bitmask of 1 << S_*; S_USER is bit 7)
 pub fn set_hook_sites(mask: u32) { unsafe { HOOK_SITES = mask; } }
 pub fn clear_hook() {
@@ -118,7 +124,8 @@ pub fn schedule_point(site: u32) {
         POINTS += 1;
         if let Some(h) = HOOK {
             if !IN_HOOK && BUDGET > 0 && (HOOK_SITES >> (if site > 31 { 7 } else { site })) & 1 == 1 {
-                if any_bool() {
+                SEEN += 1;
+                if (FIRE_AT == 0 && any_bool()) || (FIRE_AT != 0 && SEEN == FIRE_AT) {
                     BUDGET -= 1;
                     FIRED += 1;
                     IN_HOOK = true;
